@@ -315,7 +315,7 @@ def est_cases(spec, obs):
         coq = "(KLD %s %s %s %s %s %s)" % (cfl_list(R), nlit(p), blit(fwd), flit(tol),
                                           cfl_list([uhxc(q) for q in o["ak"]]), flit(uhx(o["sigma"])))
         out.append(Case(coq, {"spec": spec, "which": "ld"}, "LD/" + kl + ("" if fwd else "/residual-only")))
-        if p >= 2 and cond < 1e8:
+        if p >= 2 and cond < 1e8 and not spec.get("no_step"):
             # the last loop pass alone: orders p-2, p-1, p of the implementation on the same input
             import nitime.algorithms as tsa
             x, rxx = build_est_inputs(spec)
@@ -605,8 +605,126 @@ def gen_gen_specs(ctx):
     return out
 
 
-RUN = {"est": run_est, "psd": run_psd, "gen": run_gen}
-ORACLE = {"est": oracle_est, "psd": oracle_psd, "gen": oracle_gen}
+
+# ------------------------------------------------------------------ call histories on one buffer object
+def run_seq(spec):
+    """fits interleaved with in-place changes of ONE ndarray object; every fit records the contents it saw"""
+    import nitime.algorithms as tsa
+    N = spec["N"]
+    buf = np.zeros(N, dtype=complex if spec["complex"] else float)
+    fits = []
+    for st in spec["steps"]:
+        op = st["op"]
+        if op == "fill":
+            v = np.array([uhxc(q) for q in st["x"]])
+            buf[:] = v if spec["complex"] else v.real
+        elif op == "scale":
+            buf *= st["k"]
+        elif op == "demean":
+            buf -= buf.mean()
+        elif op == "fit":
+            fn = tsa.AR_est_LD if st["est"] == "ld" else tsa.AR_est_YW
+            try:
+                ak, s = fn(buf, st["order"])
+                r = {"ak": [hxc(z) for z in np.asarray(ak, dtype=complex)], "sigma": hx(np.real(s))}
+            except Exception as e:  # noqa
+                r = {"err": type(e).__name__, "msg": str(e)[:200]}
+            fits.append({"est": st["est"], "order": st["order"], "x": [hxc(z) for z in buf], "res": r})
+    return {"fits": fits}
+
+
+def seq_as_est(spec, f):
+    """one fit of a history as a stand-alone estimator input (current contents of the buffer)"""
+    import nitime.utils as utils
+    es = {"kind": "est", "complex": spec["complex"], "order": f["order"], "x": f["x"], "N": spec["N"], "rxx": None,
+          "rxx_kind": "computed-history", "pd": True}
+    x, _ = build_est_inputs(es)
+    R = utils.autocorr(x.copy())[:f["order"] + 1]
+    other = {"err": "not-called", "msg": ""}
+    obs = {"R": [hxc(z) for z in np.asarray(R, dtype=complex)],
+           "ld": f["res"] if f["est"] == "ld" else other, "yw": f["res"] if f["est"] == "yw" else other}
+    return es, obs
+
+
+def judge_one(spec, p, x, res, label, cls):
+    """normal equations / sigma / positivity / stability of ONE estimator result against the directly summed
+    autocorrelation of x"""
+    if "err" in res:
+        return Fail("C10/%s/raises/%s" % (label, cls), "%s raised %s: %s" % (label, res["err"], res["msg"]), res, "a result")
+    R = autocorr_ref(x, p)
+    if R[0].real == 0:
+        return None
+    cond = cond_of(R, p)
+    T = toep_ref(R, p)
+    y = R[1:p + 1]
+    tol_res = min(1e-3, max(1e-8, 1e-12 * cond))
+    a = np.array([uhxc(q) for q in res["ak"]])
+    s = uhx(res["sigma"])
+    if len(a) != p or not (np.all(np.isfinite(a)) and np.isfinite(s)):
+        return Fail("C10/%s/shape/%s" % (label, cls), "bad shape or non-finite result", res, "order %d" % p)
+    scale = np.abs(T) @ np.abs(a) + np.abs(y)
+    rel = float(np.max(np.abs(T @ a - y) / np.where(scale > 0, scale, 1)))
+    if rel > tol_res:
+        return Fail("C10/%s/normal-equations/%s" % (label, cls),
+                    "%s coefficients do not satisfy the Yule-Walker equations of the data passed in (relative residual %.3g, tolerance %.3g)"
+                    % (label, rel, tol_res), {"ak": res["ak"], "residual": rel}, "residual <= %.3g" % tol_res)
+    sf = (R[0] - np.dot(a, np.conj(y))).real
+    ssc = abs(R[0]) + float(np.dot(np.abs(a), np.abs(y)))
+    if abs(s - sf) > max(tol_res, 1e-9) * ssc:
+        return Fail("C10/%s/sigma/%s" % (label, cls), "%s innovation variance %.17g, required %.17g" % (label, s, sf), s, sf)
+    if not s > 0:
+        return Fail("C10/%s/sigma-positive/%s" % (label, cls), "innovation variance %.3g not positive" % s, s, "> 0")
+    return None
+
+
+def oracle_seq(spec, obs):
+    for k, f in enumerate(obs["fits"]):
+        xs = np.array([uhxc(q) for q in f["x"]])
+        label = "AR_est_LD" if f["est"] == "ld" else "AR_est_YW"
+        fl = judge_one(spec, f["order"], xs, f["res"], label, "buffer-reuse")
+        if fl is not None:
+            fl.what = "fit %d of a history on one array object: %s" % (k, fl.what)
+            return fl
+    return None
+
+
+def seq_cases(spec, obs):
+    out = []
+    for f in obs["fits"][1:]:            # fits after the first: the ones a history can spoil
+        if f["order"] > 4 or "err" in f["res"]:
+            continue
+        es, eo = seq_as_est(spec, f)
+        for c in est_cases(dict(es, no_step=True), eo):
+            c.klass = "HIST/" + c.klass
+            out.append(c)
+    return out[:4]
+
+
+def gen_seq_specs(ctx):
+    rng = ctx.rng
+    out = []
+    for i in range(ctx.scale(14, 60)):
+        cplx = rng.random() < 0.4
+        N = rng.choice([16, 21, 32, 50, 64, 100, 128, 257])
+        steps = [{"op": "fill", "x": [hxc(z) for z in gen_signal(rng, N, cplx, rng.choice([0.6, 0.9]))]}]
+        pmax = max(1, min(8, N // 4))
+        for _ in range(rng.randint(3, 6)):
+            steps.append({"op": "fit", "est": rng.choice(["ld", "yw"]), "order": rng.randint(1, pmax)})
+            r = rng.random()
+            if r < 0.35:
+                steps.append({"op": "fill", "x": [hxc(z) for z in gen_signal(rng, N, cplx, rng.choice([0.6, 0.9, 0.97]))]})
+            elif r < 0.55:
+                steps.append({"op": "scale", "k": rng.choice([3.0, -0.5, 2.0 ** 20])})
+            elif r < 0.7:
+                steps.append({"op": "demean"})
+            # else: no change, the same object goes to the next estimator
+        steps.append({"op": "fit", "est": rng.choice(["ld", "yw"]), "order": rng.randint(1, pmax)})
+        out.append({"kind": "seq", "complex": cplx, "N": N, "steps": steps})
+    return out
+
+
+RUN = {"est": run_est, "psd": run_psd, "gen": run_gen, "seq": run_seq}
+ORACLE = {"est": oracle_est, "psd": oracle_psd, "gen": oracle_gen, "seq": oracle_seq}
 
 
 def light(spec):
@@ -618,6 +736,8 @@ def cases_of(spec, obs):
     k = spec["kind"]
     if k == "est":
         cs = est_cases(spec, obs)
+    elif k == "seq":
+        cs = seq_cases(spec, obs)
     else:
         c = psd_case(spec, obs) if k == "psd" else gen_case(spec, obs)
         cs = [c] if c is not None else []
@@ -642,7 +762,7 @@ HEADER = ("From Coq Require Import QArith List Bool Arith PrimFloat.\n"
 def run(ctx):
     core.import_nitime()
     ctx.check_props()
-    specs = corpus_specs() + gen_est_specs(ctx) + gen_psd_specs(ctx) + gen_gen_specs(ctx)
+    specs = corpus_specs() + gen_est_specs(ctx) + gen_seq_specs(ctx) + gen_psd_specs(ctx) + gen_gen_specs(ctx)
     cases, owners, results = [], [], []
     for si, spec in enumerate(specs):
         obs = RUN[spec["kind"]](spec)
@@ -659,19 +779,37 @@ def run(ctx):
         f = ORACLE[spec["kind"]](spec, obs)
         if f is not None:
             f.replay = {"entry_point": {"est": "nitime.algorithms.AR_est_LD / AR_est_YW", "psd": "nitime.algorithms.AR_psd",
-                                        "gen": "nitime.utils.ar_generator"}[spec["kind"]],
+                                        "gen": "nitime.utils.ar_generator",
+                                        "seq": "AR_est_LD / AR_est_YW called repeatedly on one ndarray object changed in place"}[spec["kind"]],
                         "model_disagrees": i in bad_specs}
             lite = dict(spec)
             if lite.get("x") is not None and len(lite["x"]) > 64:
                 pass
             if ctx.report_fail(f, Case("", {"spec": spec, "observed": obs})):
                 nfail += 1
+    # purity: a sample of earlier calls repeated at the end of the run must give bit-identical results
+    idx = [i for i, (sp, _) in enumerate(results) if not (sp["kind"] == "gen" and sp.get("v") is None and False)]
+    sample = ctx.rng.sample(idx, min(len(idx), ctx.scale(60, 200)))
+    nrep = 0
+    for i in sample:
+        spec, obs = results[i]
+        again = RUN[spec["kind"]](spec)
+        nrep += 1
+        if json.dumps(again, sort_keys=True) != json.dumps(obs, sort_keys=True):
+            f = Fail("C10/purity/%s" % spec["kind"], "the same call repeated later in the process returned a different result "
+                     "(the result depends on the call history)", None, "bit-identical results")
+            f.replay = {"entry_point": spec["kind"], "first": obs if spec["kind"] != "est" else {k: obs[k] for k in ("ld", "yw")},
+                        "second": again if spec["kind"] != "est" else {k: again[k] for k in ("ld", "yw")}}
+            ctx.report_fail(f, Case("", {"spec": spec}))
+    ctx.extra["purity_reruns"] = nrep
     ctx.extra["model_impl_disagreements"] = len(bad)
     ctx.extra["oracle_checked_inputs"] = len(results)
     ctx.extra["oracle_only_inputs"] = sum(1 for sp, _ in results if sp.get("oracle_only"))
     ctx.extra["signal_lengths_checked_by_oracle"] = "every N in 16..130 + %d lengths in 131..4096 (powers of two +-1, 5-smooth, primes, seeded)" % len(
         {sp["N"] for sp, _ in results if sp["kind"] == "est" and sp.get("N", 0) > 130})
-    ctx.extra["rule"] = ("oracle (independent: directly summed autocorrelation) on every signal length 16..130 and ~30 lengths up to 4096, "
+    ctx.extra["rule"] = ("call histories: fits interleaved with in-place refill / scaling / de-meaning of one array object, both estimators, "
+                         "each judged against the current contents; a sample of all calls repeated at the end must be bit-identical; "
+                         "oracle (independent: directly summed autocorrelation) on every signal length 16..130 and ~30 lengths up to 4096, "
                          "orders up to min(16, N/4), data scaled by 2^-60..2^40, strided / integer-dtype / keyword-call variants, "
                          "n_freqs up to 5000, generator runs up to 4096; Coq cases: utils.autocorr tied to the lagged-sum contract on "
                          "small-integer signals (KAC), real/complex AR-coloured signals (pole radius 0.6..0.995, N 16..512 quick / ..4096 thorough, "
